@@ -1312,7 +1312,7 @@ theorem leP_trans (a b c : Nat × Nat) : leP a b = true → leP b c = true → l
 /-- **event pileup** (`arithmetics.bedgraph.get_pileup`: sort the endpoints, ±1, cumulative sum, drop duplicate
 positions): the resulting run-length array is well formed and its dense meaning is the number of intervals
 covering each base -/
-theorem pileup_events (I : List Iv) (size : Nat) (hsz : 0 < size) (hI : ∀ iv ∈ I, iv.1 ≤ iv.2 ∧ iv.2 ≤ size) :
+theorem pileup_events (I : List Iv) (size : Nat) (hI : ∀ iv ∈ I, iv.1 ≤ iv.2 ∧ iv.2 ≤ size) :
     (pileupEvents I size).toDense = (specPileup I size).map Int.ofNat := by
   -- unfold the model
   obtain ⟨T', hT'⟩ : ∃ T', T' = (I.map (fun x : Iv => x.1) ++ I.map (fun x : Iv => x.2) ++ [size]).zipIdx 1 := ⟨_, rfl⟩
@@ -1819,5 +1819,494 @@ theorem getPileup_dense (ext : List Iv → Nat → List Nat) (hext : ∀ I size,
     rw [List.range_eq_range']
     exact (map_range'_const _ 0 0 size (fun p _ _ => rfl)).symm
   | cons a I => simp [getPileup, hext]
+
+/-! ## spec-level characterisations, uniqueness, idempotence, order independence -/
+
+/-- `cov` in plain list vocabulary: the number of intervals that contain the base -/
+theorem cov_eq_length_filter (I : List Iv) (p : Nat) :
+    cov I p = (I.filter (fun iv => decide (iv.1 ≤ p ∧ p < iv.2))).length := by
+  rw [cov, List.countP_eq_length_filter]
+  congr 1
+  apply List.filter_congr
+  intro iv _
+  simp [inIv]
+
+/-- the mask is the pileup thresholded at 1 -/
+theorem specMask_eq_map_pileup (I : List Iv) (size : Nat) :
+    specMask I size = (specPileup I size).map (fun n => decide (0 < n)) := by
+  simp [specMask, specPileup]
+
+/-- a sorted list is determined by its elements: two sorted permutations of each other are equal -/
+theorem sorted_perm_unique : ∀ (l₁ l₂ : List Nat), l₁.Perm l₂ → l₁.Pairwise (· ≤ ·) → l₂.Pairwise (· ≤ ·) → l₁ = l₂ := by
+  intro l₁
+  induction l₁ with
+  | nil => intro l₂ h _ _; exact (List.Perm.nil_eq h)
+  | cons a l₁ ih =>
+    intro l₂ h h1 h2
+    cases l₂ with
+    | nil => exact absurd h.symm (by intro h'; have := h'.length_eq; simp at this)
+    | cons b l₂ =>
+      have hab : a = b := by
+        have ha : a ∈ b :: l₂ := h.mem_iff.1 (by simp)
+        have hb : b ∈ a :: l₁ := h.mem_iff.2 (by simp)
+        rcases List.mem_cons.1 ha with rfl | ha
+        · rfl
+        · rcases List.mem_cons.1 hb with hb | hb
+          · exact hb.symm
+          · have := (List.pairwise_cons.1 h1).1 b hb
+            have := (List.pairwise_cons.1 h2).1 a ha
+            omega
+      subst hab
+      rw [ih l₂ (List.Perm.cons_inv h) (List.pairwise_cons.1 h1).2 (List.pairwise_cons.1 h2).2]
+
+/-- `isort natLe` returns THE sorted permutation: any sorted permutation of the input equals it -/
+theorem isort_natLe_unique (l s : List Nat) (hp : s.Perm l) (hs : s.Pairwise (· ≤ ·)) : isort natLe l = s :=
+  sorted_perm_unique _ _ ((isort_perm natLe l).trans hp.symm) (isort_natLe_sorted l) hs
+
+theorem isort_natLe_perm_eq {l₁ l₂ : List Nat} (h : l₁.Perm l₂) : isort natLe l₁ = isort natLe l₂ :=
+  isort_natLe_unique l₁ _ ((isort_perm natLe l₂).trans h.symm) (isort_natLe_sorted l₂)
+
+/-- sorting is idempotent -/
+theorem isort_natLe_idem (l : List Nat) : isort natLe (isort natLe l) = isort natLe l :=
+  isort_natLe_unique _ _ (List.Perm.refl _) (isort_natLe_sorted l)
+
+/-- `count_overlap` and `intersect` do not depend on the order of the operands nor on the order inside them -/
+theorem countOverlap_perm {A A' B B' : List Iv} (hA : A.Perm A') (hB : B.Perm B') :
+    countOverlap A B = countOverlap A' B' ∧ intersect A B = intersect A' B' := by
+  have h1 : isort natLe (A.map (·.1) ++ B.map (·.1)) = isort natLe (A'.map (·.1) ++ B'.map (·.1)) :=
+    isort_natLe_perm_eq ((hA.map _).append (hB.map _))
+  have h2 : isort natLe (A.map (·.2) ++ B.map (·.2)) = isort natLe (A'.map (·.2) ++ B'.map (·.2)) :=
+    isort_natLe_perm_eq ((hA.map _).append (hB.map _))
+  simp only [countOverlap, intersect, h1, h2, and_self]
+
+theorem countOverlap_comm (A B : List Iv) : countOverlap A B = countOverlap B A ∧ intersect A B = intersect B A := by
+  have h1 : isort natLe (A.map (·.1) ++ B.map (·.1)) = isort natLe (B.map (·.1) ++ A.map (·.1)) :=
+    isort_natLe_perm_eq List.perm_append_comm
+  have h2 : isort natLe (A.map (·.2) ++ B.map (·.2)) = isort natLe (B.map (·.2) ++ A.map (·.2)) :=
+    isort_natLe_perm_eq List.perm_append_comm
+  simp only [countOverlap, intersect, h1, h2, and_self]
+
+/-- `get_boolean_mask` does not depend on the order of the intervals -/
+theorem mask_perm {I J : List Iv} (h : I.Perm J) (size : Nat) (hsz : 0 < size) (hI : ∀ iv ∈ I, iv.1 ≤ iv.2 ∧ iv.2 ≤ size) :
+    maskDense I size = maskDense J size := by
+  rw [(mask_dense I size hsz hI).2, (mask_dense J size hsz (fun iv hiv => hI iv (h.mem_iff.2 hiv))).2]
+  simp only [specMask]
+  apply List.map_congr_left
+  intro p _
+  rw [cov_perm h p]
+
+/-- merging returns nothing only for no intervals -/
+theorem merge_eq_nil_iff (d : Nat) (I : List Iv) : mergeVec d I = [] ↔ I = [] := by
+  rw [mergeVec_eq_mergeRec]
+  cases I with
+  | nil => simp [mergeRec]
+  | cons x rest =>
+    obtain ⟨s, e⟩ := x
+    simp only [mergeRec, reduceCtorEq, iff_false]
+    generalize e = ce
+    generalize s = cs
+    induction rest generalizing cs ce with
+    | nil => simp [mergeGo]
+    | cons y rest ih =>
+      obtain ⟨s', e'⟩ := y
+      simp only [mergeGo]
+      split
+      · simp
+      · exact ih (max ce e') cs
+
+/-- a list that is already separated by more than `d` is left unchanged: merging is idempotent -/
+theorem mergeGo_of_separated (d : Nat) (rest : List Iv) : ∀ cs ce, ((cs, ce) :: rest).Pairwise (fun a b => a.2 + d < b.1) →
+    (∀ iv ∈ rest, iv.1 ≤ iv.2) → mergeGo d cs ce rest = (cs, ce) :: rest := by
+  induction rest with
+  | nil => intro cs ce _ _; rfl
+  | cons y rest ih =>
+    intro cs ce hp hle
+    obtain ⟨s, e⟩ := y
+    have h1 : ce + d < s := (List.pairwise_cons.1 hp).1 (s, e) (by simp)
+    have h2 : s ≤ e := hle (s, e) (by simp)
+    simp only [mergeGo]
+    rw [if_pos (by omega), Nat.max_eq_right (by omega)]
+    rw [ih s e (List.pairwise_cons.1 hp).2 (fun iv hiv => hle iv (by simp [hiv]))]
+
+theorem merge_idem (d : Nat) (I : List Iv) (hs : SortedByStart I) (hne : ∀ iv ∈ I, iv.1 < iv.2) :
+    mergeVec d (mergeVec d I) = mergeVec d I := by
+  have hsep := merge_separated d I hs
+  have htight := merge_tight d I hne
+  obtain ⟨M, hM⟩ : ∃ M, M = mergeVec d I := ⟨_, rfl⟩
+  rw [← hM] at hsep htight ⊢
+  rw [mergeVec_eq_mergeRec]
+  cases M with
+  | nil => rfl
+  | cons x rest =>
+    obtain ⟨s, e⟩ := x
+    exact mergeGo_of_separated d rest s e hsep (fun iv hiv => Nat.le_of_lt (htight iv (by simp [hiv])).1)
+
+/-- **completeness for distance 0**: the maximal runs of a set of bases are unique — any list of non-empty intervals
+in increasing order, separated by at least one uncovered base, that covers exactly the bases covered by `I`
+IS `merge_intervals(I, 0)` -/
+theorem runs_unique : ∀ (R S : List Iv), R.Pairwise (fun a b => a.2 < b.1) → S.Pairwise (fun a b => a.2 < b.1) →
+    (∀ a ∈ R, a.1 < a.2) → (∀ a ∈ S, a.1 < a.2) → (∀ p, covered R p = covered S p) → R = S := by
+  intro R
+  induction R with
+  | nil =>
+    intro S _ _ _ hS h
+    cases S with
+    | nil => rfl
+    | cons b S =>
+      have := h b.1
+      have hb := hS b (by simp)
+      rw [show covered [] b.1 = false from rfl] at this
+      have h2 : covered (b :: S) b.1 = true := (covered_cons _ _ _).2 (Or.inl ⟨Nat.le_refl _, hb⟩)
+      rw [h2] at this; cases this
+  | cons a R ih =>
+    intro S hR hSp hRn hSn h
+    have ha := hRn a (by simp)
+    cases S with
+    | nil =>
+      have := h a.1
+      have h2 : covered (a :: R) a.1 = true := (covered_cons _ _ _).2 (Or.inl ⟨Nat.le_refl _, ha⟩)
+      rw [h2] at this; cases this
+    | cons b S =>
+      have hb := hSn b (by simp)
+      have hRgt : ∀ x ∈ R, a.2 < x.1 := fun x hx => (List.pairwise_cons.1 hR).1 x hx
+      have hSgt : ∀ x ∈ S, b.2 < x.1 := fun x hx => (List.pairwise_cons.1 hSp).1 x hx
+      -- a point p < a.2 is covered by (a :: R) iff a.1 ≤ p
+      have covR : ∀ p, p ≤ a.2 → (covered (a :: R) p = true ↔ a.1 ≤ p ∧ p < a.2) := by
+        intro p hp
+        rw [covered_cons]
+        constructor
+        · rintro (h1 | h1)
+          · exact h1
+          · obtain ⟨x, hx, h3, _⟩ := (covered_iff R p).1 h1
+            have := hRgt x hx; omega
+        · exact Or.inl
+      have covS : ∀ p, p ≤ b.2 → (covered (b :: S) p = true ↔ b.1 ≤ p ∧ p < b.2) := by
+        intro p hp
+        rw [covered_cons]
+        constructor
+        · rintro (h1 | h1)
+          · exact h1
+          · obtain ⟨x, hx, h3, _⟩ := (covered_iff S p).1 h1
+            have := hSgt x hx; omega
+        · exact Or.inl
+      -- starts agree
+      have h1 : a.1 = b.1 := by
+        have e1 : covered (b :: S) a.1 = true := by rw [← h a.1]; exact (covR a.1 (by omega)).2 ⟨Nat.le_refl _, ha⟩
+        have e2 : covered (a :: R) b.1 = true := by rw [h b.1]; exact (covS b.1 (by omega)).2 ⟨Nat.le_refl _, hb⟩
+        have f1 : b.1 ≤ a.1 := by
+          rcases (covered_cons _ _ _).1 e1 with h3 | h3
+          · exact h3.1
+          · obtain ⟨x, hx, h4, _⟩ := (covered_iff S a.1).1 h3
+            have := hSgt x hx; omega
+        have f2 : a.1 ≤ b.1 := by
+          rcases (covered_cons _ _ _).1 e2 with h3 | h3
+          · exact h3.1
+          · obtain ⟨x, hx, h4, _⟩ := (covered_iff R b.1).1 h3
+            have := hRgt x hx; omega
+        omega
+      -- stops agree
+      have h2 : a.2 = b.2 := by
+        rcases Nat.lt_trichotomy a.2 b.2 with hlt | heq | hgt
+        · -- a.2 is covered by S but not by R
+          have e1 : covered (b :: S) a.2 = true := (covS a.2 (by omega)).2 ⟨by omega, hlt⟩
+          rw [← h a.2] at e1
+          have := (covR a.2 (Nat.le_refl _)).1 e1
+          omega
+        · exact heq
+        · have e1 : covered (a :: R) b.2 = true := (covR b.2 (by omega)).2 ⟨by omega, hgt⟩
+          rw [h b.2] at e1
+          have := (covS b.2 (Nat.le_refl _)).1 e1
+          omega
+      have hab : a = b := Prod.ext h1 h2
+      subst hab
+      congr 1
+      refine ih S (List.pairwise_cons.1 hR).2 (List.pairwise_cons.1 hSp).2 (fun x hx => hRn x (by simp [hx]))
+        (fun x hx => hSn x (by simp [hx])) ?_
+      intro p
+      have hp := h p
+      by_cases hpa : p < a.2
+      · have r1 : covered R p = false := by
+          cases hc : covered R p with
+          | false => rfl
+          | true => obtain ⟨x, hx, h3, _⟩ := (covered_iff R p).1 hc; have := hRgt x hx; omega
+        have s1 : covered S p = false := by
+          cases hc : covered S p with
+          | false => rfl
+          | true => obtain ⟨x, hx, h3, _⟩ := (covered_iff S p).1 hc; have := hSgt x hx; omega
+        rw [r1, s1]
+      · have r1 : covered (a :: R) p = covered R p := by
+          cases hc : covered R p with
+          | true => exact (covered_cons _ _ _).2 (Or.inr hc)
+          | false =>
+            cases hc2 : covered (a :: R) p with
+            | false => rfl
+            | true =>
+              rcases (covered_cons _ _ _).1 hc2 with h3 | h3
+              · omega
+              · rw [hc] at h3; cases h3
+        have s1 : covered (a :: S) p = covered S p := by
+          cases hc : covered S p with
+          | true => exact (covered_cons _ _ _).2 (Or.inr hc)
+          | false =>
+            cases hc2 : covered (a :: S) p with
+            | false => rfl
+            | true =>
+              rcases (covered_cons _ _ _).1 hc2 with h3 | h3
+              · omega
+              · rw [hc] at h3; cases h3
+        rw [← r1, ← s1]; exact hp
+
+theorem merge0_unique (I : List Iv) (hs : SortedByStart I) (hne : ∀ iv ∈ I, iv.1 < iv.2) (R : List Iv)
+    (hR : R.Pairwise (fun a b => a.2 < b.1)) (hRn : ∀ a ∈ R, a.1 < a.2)
+    (hcov : ∀ p, covered R p = true ↔ 0 < cov I p) : R = mergeVec 0 I := by
+  refine runs_unique R (mergeVec 0 I) hR ((merge_separated 0 I hs).imp (by intro a b h; omega)) hRn
+    (fun a ha => (merge_tight 0 I hne a ha).1) ?_
+  intro p
+  have h1 := hcov p
+  have h2 := merge_cover I hs p
+  cases hc1 : covered R p <;> cases hc2 : covered (mergeVec 0 I) p <;> simp_all
+
+example : SortedByStart [(0, 2), (1, 4), (6, 7)] ∧ (∀ iv ∈ [((0 : Nat), (2 : Nat)), (1, 4), (6, 7)], iv.1 < iv.2) ∧
+    mergeVec 0 [(0, 2), (1, 4), (6, 7)] = [(0, 4), (6, 7)] := by
+  unfold SortedByStart; decide
+
+/-! ## global_intersect: several chromosomes at once -/
+
+theorem insertBy_map {α β : Type} (le1 : α → α → Bool) (le2 : β → β → Bool) (f : α → β) (a : α) (l : List α)
+    (h : ∀ b ∈ l, le1 a b = le2 (f a) (f b)) : (insertBy le1 a l).map f = insertBy le2 (f a) (l.map f) := by
+  induction l with
+  | nil => rfl
+  | cons b l ih =>
+    simp only [insertBy, List.map_cons]
+    rw [← h b (by simp)]
+    split
+    · rfl
+    · simp only [List.map_cons]; rw [ih (fun x hx => h x (by simp [hx]))]
+
+theorem isort_map {α β : Type} (le1 : α → α → Bool) (le2 : β → β → Bool) (f : α → β) (l : List α)
+    (h : ∀ a ∈ l, ∀ b ∈ l, le1 a b = le2 (f a) (f b)) : (isort le1 l).map f = isort le2 (l.map f) := by
+  induction l with
+  | nil => rfl
+  | cons a l ih =>
+    simp only [isort, List.map_cons]
+    rw [insertBy_map le1 le2 f a _ (fun b hb => h a (by simp) b (by simp [(isort_perm le1 l).mem_iff.1 hb])),
+      ih (fun x hx y hy => h x (by simp [hx]) y (by simp [hy]))]
+
+/-- position on the concatenation of chromosomes of width `W` -/
+def enc (W : Nat) (p : Nat × Nat) : Nat := p.1 * W + p.2
+
+theorem enc_block (W c c' : Nat) (h : c < c') : c * W + W ≤ c' * W := by
+  have := Nat.mul_le_mul_right W (Nat.succ_le_of_lt h)
+  rw [Nat.succ_mul] at this; exact this
+
+theorem lexCP_enc (W : Nat) (a b : Nat × Nat) (ha : a.2 < W) (hb : b.2 < W) :
+    lexCP a b = natLe (enc W a) (enc W b) := by
+  rw [Bool.eq_iff_iff]
+  have h1 : lexCP a b = true ↔ (a.1 < b.1 ∨ (a.1 = b.1 ∧ a.2 ≤ b.2)) := by
+    simp [lexCP]
+  have h2 : natLe (enc W a) (enc W b) = true ↔ enc W a ≤ enc W b := by
+    unfold natLe; exact decide_eq_true_iff
+  rw [h1, h2]
+  simp only [enc]
+  rcases Nat.lt_trichotomy a.1 b.1 with h | h | h
+  · have := enc_block W a.1 b.1 h; constructor <;> intro _ <;> omega
+  · rw [h]; constructor <;> intro _ <;> omega
+  · have := enc_block W b.1 a.1 h; constructor <;> intro _ <;> omega
+
+/-- a base of chromosome `c` is inside the encoded interval of a record iff the record is on `c` and contains it -/
+theorem enc_mem (W c x : Nat) (r : CIv) (hr : r.2.1 ≤ r.2.2) (hW : r.2.2 < W) (hx : x < W) :
+    (enc W (r.1, r.2.1) ≤ enc W (c, x) ∧ enc W (c, x) < enc W (r.1, r.2.2)) ↔ (r.1 = c ∧ r.2.1 ≤ x ∧ x < r.2.2) := by
+  simp only [enc]
+  rcases Nat.lt_trichotomy r.1 c with h | h | h
+  · have := enc_block W r.1 c h; constructor <;> intro h2 <;> omega
+  · subst h; constructor <;> intro h2 <;> omega
+  · have := enc_block W c r.1 h; constructor <;> intro h2 <;> omega
+
+def bnd (L : List CIv) : Nat := L.foldr (fun r acc => max (r.2.2 + 1) acc) 1
+
+theorem lt_bnd (L : List CIv) : ∀ r ∈ L, r.2.2 < bnd L := by
+  induction L with
+  | nil => intro r h; simp at h
+  | cons a L ih =>
+    intro r hr
+    simp only [bnd, List.foldr_cons] at ih ⊢
+    rcases List.mem_cons.1 hr with rfl | hr
+    · omega
+    · have := ih r hr; omega
+
+/-- the encoded interval list of records -/
+def encIv (W : Nat) (L : List CIv) : List Iv := L.map (fun r => (enc W (r.1, r.2.1), enc W (r.1, r.2.2)))
+
+theorem cov_encIv (W c x : Nat) (L : List CIv) (hL : ∀ r ∈ L, r.2.1 ≤ r.2.2 ∧ r.2.2 < W) (hx : x < W) :
+    cov (encIv W L) (enc W (c, x)) = covC L c x := by
+  simp only [cov, covC, encIv, List.countP_map]
+  apply List.countP_congr
+  intro r hr
+  have := enc_mem W c x r (hL r hr).1 (hL r hr).2 hx
+  simp only [Function.comp, inIv, Bool.and_eq_true, decide_eq_true_eq, beq_iff_eq]
+  constructor
+  · intro h; have := this.1 h; exact ⟨⟨this.1, this.2.1⟩, this.2.2⟩
+  · intro h; exact this.2 ⟨h.1.1, h.1.2, h.2⟩
+
+/-- **global_intersect** (repaired code), any records with start ≤ stop: on every chromosome the returned pieces
+cover every base `depth − 1` times, where depth counts the records of `A ++ B` on that chromosome containing it -/
+theorem globalIntersect_depth (A B : List CIv) (h : ∀ r ∈ A ++ B, r.2.1 ≤ r.2.2) (c x : Nat) :
+    covC (globalIntersect A B) c x = covC (A ++ B) c x - 1 := by
+  obtain ⟨all, hall⟩ : ∃ all, all = A ++ B := ⟨_, rfl⟩
+  obtain ⟨W, hW⟩ : ∃ W, W = bnd all + x + 1 := ⟨_, rfl⟩
+  have hWall : ∀ r ∈ all, r.2.1 ≤ r.2.2 ∧ r.2.2 < W := fun r hr =>
+    ⟨by rw [hall] at hr; exact h r hr, by have := lt_bnd all r hr; omega⟩
+  have hWall1 : ∀ r ∈ all, r.2.2 < W - 1 := fun r hr => by have := lt_bnd all r hr; omega
+  have hxW : x < W := by omega
+  -- sorted starts / stops and their encodings
+  obtain ⟨st, hst⟩ : ∃ st, st = isort lexCP (all.map (fun r => (r.1, r.2.1))) := ⟨_, rfl⟩
+  obtain ⟨sp, hsp⟩ : ∃ sp, sp = isort lexCP (all.map (fun r => (r.1, r.2.2))) := ⟨_, rfl⟩
+  have hstE : st.map (enc W) = isort natLe ((encIv W all).map (·.1)) := by
+    rw [hst, isort_map lexCP natLe (enc W)]
+    · simp [encIv, Function.comp_def]
+    · intro a ha b hb
+      obtain ⟨ra, hra, rfl⟩ := List.mem_map.1 ha
+      obtain ⟨rb, hrb, rfl⟩ := List.mem_map.1 hb
+      exact lexCP_enc W _ _ (by have := hWall ra hra; simp only; omega) (by have := hWall rb hrb; simp only; omega)
+  have hspE : sp.map (enc W) = isort natLe ((encIv W all).map (·.2)) := by
+    rw [hsp, isort_map lexCP natLe (enc W)]
+    · simp [encIv, Function.comp_def]
+    · intro a ha b hb
+      obtain ⟨ra, hra, rfl⟩ := List.mem_map.1 ha
+      obtain ⟨rb, hrb, rfl⟩ := List.mem_map.1 hb
+      exact lexCP_enc W _ _ (hWall ra hra).2 (hWall rb hrb).2
+  have hencLe : ∀ iv ∈ encIv W all, iv.1 ≤ iv.2 := by
+    intro iv hiv
+    obtain ⟨r, hr, rfl⟩ := List.mem_map.1 hiv
+    have := (hWall r hr).1
+    simp only [enc]; omega
+  -- the pairing identity in the encoded space
+  have hpair : ∀ q, cov ((st.tail.zip sp).map (fun p => (enc W p.1, enc W p.2))) q = cov (encIv W all) q - 1 := by
+    intro q
+    have := cov_pairing (encIv W all) hencLe q
+    rw [← hstE, ← hspE, ← List.map_tail] at this
+    rw [← this]
+    congr 1
+    rw [List.zip_map]
+    rfl
+  -- elements of the zip are (start of a record, stop of a record)
+  have hZmem : ∀ p ∈ st.tail.zip sp, p.1.2 < W - 1 ∧ p.2.2 < W - 1 := by
+    intro p hp
+    have hp' := List.of_mem_zip (a := p.1) (b := p.2) hp
+    have h1 : p.1 ∈ st := List.mem_of_mem_tail hp'.1
+    rw [hst] at h1
+    obtain ⟨r1, hr1, e1⟩ := List.mem_map.1 ((isort_perm lexCP _).mem_iff.1 h1)
+    have h2 := hp'.2
+    rw [hsp] at h2
+    obtain ⟨r2, hr2, e2⟩ := List.mem_map.1 ((isort_perm lexCP _).mem_iff.1 h2)
+    rw [← e1, ← e2]
+    have a1 := hWall r1 hr1
+    have a2 := hWall1 r1 hr1
+    have a3 := hWall1 r2 hr2
+    simp only; omega
+  -- no pair straddles two chromosomes
+  have hsame : ∀ p ∈ st.tail.zip sp, enc W p.1 < enc W p.2 → p.1.1 = p.2.1 ∧ p.1.2 < p.2.2 := by
+    intro p hp hlt
+    have hb := hZmem p hp
+    simp only [enc] at hlt
+    rcases Nat.lt_trichotomy p.1.1 p.2.1 with hc | hc | hc
+    · -- the gap point at the end of chromosome p.1.1 would be covered
+      exfalso
+      have hq := hpair (enc W (p.1.1, W - 1))
+      rw [cov_encIv W p.1.1 (W - 1) all hWall (by omega)] at hq
+      have hzero : covC all p.1.1 (W - 1) = 0 := by
+        apply List.countP_eq_zero.2
+        intro r hr
+        have := hWall1 r hr
+        simp only [Bool.and_eq_true, decide_eq_true_eq, beq_iff_eq, not_and]
+        intro _ _; omega
+      rw [hzero] at hq
+      have hpos : 0 < cov ((st.tail.zip sp).map (fun p => (enc W p.1, enc W p.2))) (enc W (p.1.1, W - 1)) := by
+        rw [cov_pos_iff]
+        refine ⟨(enc W p.1, enc W p.2), List.mem_map_of_mem hp, ?_, ?_⟩
+        · simp only [enc]; omega
+        · have := enc_block W p.1.1 p.2.1 hc
+          simp only [enc]; omega
+      omega
+    · rw [hc] at hlt; exact ⟨hc, by omega⟩
+    · have := enc_block W p.2.1 p.1.1 hc; omega
+  -- count the pieces on chromosome c containing x
+  have hL : covC (globalIntersect A B) c x = cov ((st.tail.zip sp).map (fun p => (enc W p.1, enc W p.2))) (enc W (c, x)) := by
+    simp only [globalIntersect, globalIntersectWith, ← hall, ← hst, ← hsp, covC, cov, List.countP_map, List.countP_filter]
+    apply List.countP_congr
+    intro p hp
+    have hb := hZmem p hp
+    simp only [Function.comp, inIv, Bool.and_eq_true, decide_eq_true_eq, beq_iff_eq, Bool.not_true, Bool.false_or]
+    constructor
+    · rintro ⟨⟨⟨hc, h1⟩, h2⟩, h3, h4⟩
+      simp only [enc]
+      rw [← hc, h4]; constructor <;> omega
+    · intro hin
+      have hlt : enc W p.1 < enc W p.2 := by omega
+      obtain ⟨hcc, hse⟩ := hsame p hp hlt
+      have := (enc_mem W c x (p.1.1, p.1.2, p.2.2) (by simp only; omega) (by simp only; omega) hxW).1
+        ⟨hin.1, by rw [hcc]; exact hin.2⟩
+      simp only at this
+      exact ⟨⟨⟨this.1, this.2.1⟩, this.2.2⟩, hse, hcc.symm⟩
+  rw [hL, hpair, cov_encIv W c x all hWall hxW, hall]
+
+def onChrom (L : List CIv) (c : Nat) : List Iv := (L.filter (fun r => r.1 == c)).map (·.2)
+
+theorem covC_eq_cov_onChrom (L : List CIv) (c x : Nat) : covC L c x = cov (onChrom L c) x := by
+  simp only [covC, cov, onChrom, List.countP_map, List.countP_filter]
+  apply List.countP_congr
+  intro r _
+  simp [inIv, Bool.and_assoc, Bool.and_comm]
+
+/-- **global_intersect** on operands that are internally non-overlapping on every chromosome: on each chromosome
+every base covered by both operands is covered by exactly one returned piece, every other base by none -/
+theorem globalIntersect_perbase (A B : List CIv) (dA : ∀ c, internallyDisjoint (onChrom A c) = true)
+    (dB : ∀ c, internallyDisjoint (onChrom B c) = true) (c x : Nat) :
+    covC (globalIntersect A B) c x = if 0 < cov (onChrom A c) x ∧ 0 < cov (onChrom B c) x then 1 else 0 := by
+  have hle : ∀ r ∈ A ++ B, r.2.1 ≤ r.2.2 := by
+    intro r hr
+    rcases List.mem_append.1 hr with h | h
+    · exact internallyDisjoint_le _ (dA r.1) r.2 (List.mem_map_of_mem (List.mem_filter.2 ⟨h, by simp⟩))
+    · exact internallyDisjoint_le _ (dB r.1) r.2 (List.mem_map_of_mem (List.mem_filter.2 ⟨h, by simp⟩))
+  rw [globalIntersect_depth A B hle c x]
+  have e : covC (A ++ B) c x = cov (onChrom A c) x + cov (onChrom B c) x := by
+    rw [← covC_eq_cov_onChrom, ← covC_eq_cov_onChrom]
+    simp [covC, List.countP_append]
+  rw [e]
+  have := cov_le_one _ (dA c) x
+  have := cov_le_one _ (dB c) x
+  split <;> omega
+
+/-- the rule shipped before fix 35da59d paired the last stop of one chromosome with the first start of the next -/
+theorem globalIntersectOld_unsound :
+    globalIntersectOld [(0, 0, 10)] [(1, 2, 5)] = [(1, 2, 10)] ∧ globalIntersect [(0, 0, 10)] [(1, 2, 5)] = [] := by decide
+
+example : (∀ c, internallyDisjoint (onChrom [(0, 0, 3), (1, 3, 9), (0, 5, 6)] c) = true) := by
+  intro c
+  by_cases h0 : c = 0
+  · subst h0; decide
+  · by_cases h1 : c = 1
+    · subst h1; decide
+    · have : onChrom [(0, 0, 3), (1, 3, 9), (0, 5, 6)] c = [] := by
+        simp only [onChrom, List.filter_cons, List.filter_nil]
+        have e0 : ((0 : Nat) == c) = false := by simp; omega
+        have e1 : ((1 : Nat) == c) = false := by simp; omega
+        simp [e0, e1]
+      rw [this]; decide
+
+/-! ## Geometry.sort -/
+
+theorem lexCS2_total (a b : Rec) : lexCS2 a b = true ∨ lexCS2 b a = true := by
+  simp only [lexCS2, Bool.or_eq_true, Bool.and_eq_true, decide_eq_true_eq, beq_iff_eq]; omega
+
+theorem lexCS2_trans (a b c : Rec) : lexCS2 a b = true → lexCS2 b c = true → lexCS2 a c = true := by
+  simp only [lexCS2, Bool.or_eq_true, Bool.and_eq_true, decide_eq_true_eq, beq_iff_eq]; omega
+
+/-- `Geometry.sort` returns a permutation ordered by (chromosome, start) — position on the concatenated genome -/
+theorem geoSort_perm_sorted (xs : List Rec) :
+    (geoSort xs).Perm xs ∧ (geoSort xs).Pairwise (fun a b => a.1 < b.1 ∨ (a.1 = b.1 ∧ a.2.1 ≤ b.2.1)) :=
+  ⟨isort_perm lexCS2 xs, (isort_pairwise lexCS2 lexCS2_total lexCS2_trans xs).imp (by
+    intro a b h
+    simpa [lexCS2] using h)⟩
 
 end C08
